@@ -210,7 +210,8 @@ CLAIMS = {
         "C13_closing_allowed, C13_enter_once, C13_enter_opens, C13_closed_flag, C13_state_during_teardown, "
         "C13_closed_after_exit, C13_children_reported, C13_child_registered; for lookups *awaited* by teardown callbacks "
         "(Props/C13_body.lean) C13_closing_get_allowed, C13_body_get_is_get, C13_body_get_blocks_iff (it is get_resource "
-        "where that does not suspend). The correspondence enumerates the whole matrix "
+        "where that does not suspend); C13_closed_flag_in_callback / _during_teardown (the flag a teardown callback reads is "
+        "true). The correspondence enumerates the whole matrix "
         "on both back-ends in both tiers. " + KERNEL_NOTE,
         "The roll-back to inactive after a failing __aenter__ has no trigger from the public API: not exercised.",
         "8/C13",
@@ -249,7 +250,7 @@ CLAIMS = {
         "ladder as a decision table), C16_files_lookup / C16_later_file_* / C16_set_get / C16_set_frame / C16_set_not_mapping / "
         "C16_service_lookup / C16_component_is_default_service / C16_extract / C16_pipeline (precedence: later file > earlier "
         "file, --set > files, service section > top level, via C17), C16_split_roundtrip (dots split keys unless escaped) and "
-        "C16_error_starts_nothing hold for all file lists, override lists and service layouts about the Lean function "
+        "C16_error_starts_nothing, C16_files_left_to_right hold for all file lists, override lists and service layouts about the Lean function "
         "`cliConfig`; the correspondence runs the real click command in-process with run_application replaced by a recorder "
         "and requires the same arguments or the same error.",
         "Partial: YAML parsing (incl. !Env/!TextFile/!BinaryFile), click and os.environ are implementation-side only; the "
@@ -259,7 +260,8 @@ CLAIMS = {
     ),
     "C17": (
         "Theorems C17_lookup / C17_keys / C17_mem_keys / C17_wf / C17_none_* state the right-biased deep merge for all "
-        "pairs of nested dictionaries (unbounded depth and width) about the Lean function `merge`; the correspondence "
+        "pairs of nested dictionaries (unbounded depth and width) about the Lean function `merge`; C17_not_associative is a "
+        "machine-checked witness that deep merging is not associative (why files are merged strictly in order); the correspondence "
         "runs merge_config and `merge` on the same generated pairs and requires identical results (order included).",
         "Partial: 'neither argument is modified' and 'returns a new dict' are object-identity facts a pure model "
         "cannot express; they are decided on the implementation only (deep snapshot before/after on every case).",
